@@ -2,6 +2,7 @@ from miasm.core.utils import decode_hex, encode_hex
 import miasm.expression.expression as m2_expr
 from miasm.ir.symbexec import SymbolicExecutionEngine
 from miasm.arch.x86.arch import is_op_segm
+from miasm.jitter.csts import PAGE_READ, PAGE_WRITE, EXCEPT_ACCESS_VIOL
 
 
 class EmulatedSymbExec(SymbolicExecutionEngine):
@@ -67,6 +68,19 @@ class EmulatedSymbExec(SymbolicExecutionEngine):
             self.symbols.symbols_id[reg] = m2_expr.ExprInt(0, size=reg.size)
 
     # Memory management
+    def _mem_access_fault(self, addr, size, access):
+        """Like the C backends, raise EXCEPT_ACCESS_VIOL in the vm and return
+        True if one of the @size bytes at @addr is not mapped in a page allowing
+        @access (PAGE_READ or PAGE_WRITE)"""
+        for offset in range(size):
+            cur_addr = addr + offset
+            if (self.vm.is_mapped(cur_addr, 1) and
+                self.vm.get_mem_access(cur_addr) & access):
+                continue
+            self.vm.set_exception(self.vm.get_exception() | EXCEPT_ACCESS_VIOL)
+            return True
+        return False
+
     def mem_read(self, expr_mem):
         """Memory read wrapper for symbolic execution
         @expr_mem: ExprMem"""
@@ -76,6 +90,10 @@ class EmulatedSymbExec(SymbolicExecutionEngine):
             return super(EmulatedSymbExec, self).mem_read(expr_mem)
         addr = int(addr)
         size = expr_mem.size // 8
+        if self._mem_access_fault(addr, size, PAGE_READ):
+            # The instruction is going to be interrupted by the jitter
+            self.vm.add_mem_read(addr, size)
+            return m2_expr.ExprInt(0, expr_mem.size)
         value = self.vm.get_mem(addr, size)
         if self.vm.is_little_endian():
             value = value[::-1]
@@ -100,6 +118,14 @@ class EmulatedSymbExec(SymbolicExecutionEngine):
         # Format information
         addr = int(dest.ptr)
         size = data.size // 8
+
+        # A faulting instruction has no effect: no write once an access of the
+        # instruction has faulted, nor for a faulting write
+        if self.vm.get_exception() & EXCEPT_ACCESS_VIOL == EXCEPT_ACCESS_VIOL:
+            return
+        if self._mem_access_fault(addr, size, PAGE_WRITE):
+            self.vm.add_mem_write(addr, size)
+            return
         content = hex(to_write).replace("0x", "").replace("L", "")
         content = "0" * (size * 2 - len(content)) + content
         content = decode_hex(content)
